@@ -31,7 +31,7 @@
     correspondence stream: every callback's [locked, alive, occurrence count, snapshot] is compared
     with the model, plus the oracle "alive and seen exactly once" on the implementation's own log. *)
 From Ark Require Import Model.Base Model.Mask Model.Pool Model.Util Model.World Model.Run.
-From Ark Require Import Proofs.WF Proofs.StorageA Proofs.StorageBDefs Proofs.ViewProofs Proofs.BatchView Properties.Common.
+From Ark Require Import Proofs.WF Proofs.StorageA Proofs.StorageBDefs Proofs.ViewProofs Proofs.BatchView Proofs.StorageD Properties.Common.
 
 Theorem C09_callback_logs_state_at_callback_time : forall oi e s u s',
   run_callback oi e s = Ok u s' -> w_log s' = w_log s ++ [v_cb_entry oi e s].
@@ -98,7 +98,13 @@ Definition C09_active_observers_refuted := remove_entities_view_active_refuted.
 Definition C09_batch_examples := (batch_view_nonvacuous, bv_world_remove_entities, remove_entities_view_example,
   exchange_batch_view_example, new_batch_view_example).
 
-Definition C09_all := (C09_callback_logs_state_at_callback_time, C09_remove_is_prefix_events_move,
+(** Over histories (StorageD.v): "appears exactly once in any query" without the extra hypothesis:
+    [tables_listed] is an invariant of every history of the core operations, queries and filter
+    creation. *)
+Definition C09_live_seen_exactly_once_after_every_history := reachable_live_seen_exactly_once.
+Definition C09_snapshot_is_content_after_every_history := reachable_snapshot_is_content.
+
+Definition C09_all := (C09_live_seen_exactly_once_after_every_history, C09_snapshot_is_content_after_every_history, C09_callback_logs_state_at_callback_time, C09_remove_is_prefix_events_move,
   C09_removal_events_see_old_content, C09_add_events_after_change, C09_seen_at_most_once, C09_dead_never_seen,
   C09_live_seen_exactly_once_partial, C09_remove_entities_batch, C09_exchange_batch, C09_new_batch,
   C09_remove_entities_batch_partial, C09_exchange_batch_partial, C09_new_batch_partial,
